@@ -121,18 +121,25 @@ type buildOpts struct {
 }
 
 type world struct {
-	name         string
-	docs         []doc
-	build        func(o buildOpts) PH
-	lexerKind    string // "text/scanner", "stateful", "generated"
-	hasGen       func() bool
-	junk         string               // lexically valid suffix that no document can continue with
-	perRunDelim  bool                 // documents contain {D0} {D1} {D2} placeholders for per-run delimiters
-	stmtBuild    func(o buildOpts) PH // one-statement grammar for the resumption clause (optional)
-	hasCallbacks bool
+	name            string
+	docs            []doc
+	build           func(o buildOpts) PH
+	lexerKind       string // "text/scanner", "stateful", "generated"
+	hasGen          func() bool
+	junk            string               // lexically valid suffix that no document can continue with
+	perRunDelim     bool                 // documents contain {D0} {D1} {D2} placeholders for per-run delimiters
+	stmtBuild       func(o buildOpts) PH // one-statement grammar for the resumption clause (optional)
+	fixedLookaheads []int                // restrict the lookahead variants (nil: all)
+	verbatim        bool                 // documents are used as they are: no content faults are derived from them
+	hasCallbacks    bool
 }
 
-func (w *world) lookaheads() []int { return []int{0, 1, 2, participle.MaxLookahead, -1} }
+func (w *world) lookaheads() []int {
+	if w.fixedLookaheads != nil {
+		return w.fixedLookaheads
+	}
+	return []int{0, 1, 2, participle.MaxLookahead, -1}
+}
 
 func applyCommon(o buildOpts, def lexer.Definition, opts []participle.Option) []participle.Option {
 	if def == nil && (o.narrow || o.wrap != nil) {
